@@ -21,6 +21,19 @@ const childASLimit = 3 << 30 // bytes of address space the child may use
 const childTimeout = 20 * time.Second
 
 func childMain(args []string) {
+	if args[0] == "holdopen" {
+		// holds a handle (and its flock) on a file for some milliseconds
+		db, err := wt.Open(args[1])
+		if err != nil {
+			fmt.Println("openerr")
+			return
+		}
+		fmt.Println("held")
+		os.Stdout.Sync()
+		time.Sleep(time.Duration(atoi(args[2])) * time.Millisecond)
+		db.Close()
+		return
+	}
 	lim := syscall.Rlimit{Cur: childASLimit, Max: childASLimit}
 	_ = syscall.Setrlimit(syscall.RLIMIT_AS, &lim)
 	var ms0, ms1 runtime.MemStats
